@@ -342,7 +342,9 @@ ChkCmdRet(h, g, e) ==
    \cup If(h.urgent /\ ~c.ovl /\ c.res = "ok" /\ (dk \/ c.kind \in DrainKinds) /\ e.t > bound,
          {V("C17_b", e.c, "", <<"returned later than its condition was met", bound, e.t>>)})
    \cup (LET \* services whose bindings are settled: live, and no command that may move or remove them is in progress
-              settled == {x \in DOMAIN g.svc : g.svc[x].live
+              \* (after overlapping group-changing commands on one service its bindings cannot be told from the results:
+              \*  the later install may have put the older version back - those are judged from `list` alone, ChkList)
+              settled == {x \in DOMAIN g.svc : g.svc[x].live /\ ~g.svc[x].mess
                                               /\ ~\E k \in g.svc[x].pending : g.cmd[k].kind \in (DeployKinds \cup {"remove"})}
               clash == {<<x, y>> \in settled \X settled : x # y /\ g.svc[x].binds \cap g.svc[y].binds # {}}
           IN If(c.kind \in (DeployKinds \cup {"remove"}) /\ clash # {},
@@ -533,6 +535,14 @@ ChkFile(h, e) ==
    \cup If(e.ok /\ e.point = "returned" /\ quiet /\ e.cfg # current,
            {V("C12_b", e.c, "", <<"all commands returned but the state file does not describe the current configuration">>)})
 
+\* C05, as the operator sees it: in the output of `list`, taken at any moment, no host/path pair appears under two services
+ChkList(e) ==
+  LET pairs(x) == {<<hh, pp>> : hh \in SetOf(x.hosts), pp \in SetOf(x.paths)}
+      n == Len(e.svcs)
+      clash == {<<e.svcs[ab[1]].name, e.svcs[ab[2]].name>> :
+                  ab \in {x \in (1..n) \X (1..n) : x[1] # x[2] /\ pairs(e.svcs[x[1]]) \cap pairs(e.svcs[x[2]]) # {}}}
+  IN If(clash # {}, {V("C05_a", e.c, "", <<"list shows a host and path under two services", clash>>)})
+
 Chk(h, g, e) ==
   CASE e.ev = "tg_beg"    -> ChkTgBeg(h, e)
     [] e.ev = "tg_end"    -> ChkTgEnd(h, e)
@@ -542,6 +552,7 @@ Chk(h, g, e) ==
     [] e.ev = "end"       -> ChkEnd(h, e)
     [] e.ev = "panic"     -> {V("C18_panic", e.c, "", <<"panic", e.what>>)}
     [] e.ev = "file_obs"  -> ChkFile(g, e)
+    [] e.ev = "list_obs"  -> ChkList(e)
     [] e.ev = "harness_error" -> {V("HARNESS", "", "", e.what)}
     [] OTHER -> {}
 (***************************************************************************)
@@ -579,6 +590,7 @@ Exercised(h, g, e) ==
     [] e.ev = "tg_probe" /\ Has(h.tg, e.tg) ->
          If(h.urgent /\ h.tg[e.tg].retSeq = 0 /\ h.tg[e.tg].probeT >= 0, {"C09_a"})
     [] e.ev = "file_obs" -> {"C12_a"} \cup If(e.point = "returned" /\ g.running = {}, {"C12_b"})
+    [] e.ev = "list_obs" -> If(Len(e.svcs) >= 2, {"C05_a"})
     [] e.ev = "end" ->
          If(\E u \in DOMAIN h.tg : h.tg[u].retSeq # 0 /\ e.t > h.tg[u].retT + h.cmd[h.tg[u].grp].hcI, {"C17_c"})
          \cup If(\E u \in DOMAIN h.tg : h.tg[u].retWhy = "failed" /\ e.t > h.tg[u].retT + h.cmd[h.tg[u].grp].hcI, {"C06_b"})
